@@ -448,6 +448,15 @@ def runRepaired (sq : α → α) : List (Op α) → BV α → Except Err (BV α)
     | .ok b' => runRepaired sq ops b'
     | .error e => .error e
 
+/-- the repaired operations behind numpy's index objects -/
+def runRepairedIx (sq : α → α) : List (OpIx α) → BV α → Except Err (BV α)
+  | [], b => .ok b
+  | o :: os, b => match o.norm b.taxa.length with
+    | .error e => .error e
+    | .ok op => match applyOpRepaired sq op b with
+      | .ok b' => runRepairedIx sq os b'
+      | .error e => .error e
+
 /-- the documented contract of `reorder_taxa(indices)`: `indices` is a permutation of the taxa
     (of a rectangular matrix); every other operation is constrained by `applyRaw` only -/
 def Op.validAt (op : Op α) (r : Raw α) : Prop :=
@@ -462,6 +471,17 @@ def ValidHistory : List (Op α) → Raw α → Prop
       match applyRaw op r with
       | .ok r' => ValidHistory ops r'
       | .error _ => True
+
+/-- the same for a history written with numpy's index objects (normalised for the current number of taxa) -/
+def ValidHistoryIx : List (OpIx α) → Raw α → Prop
+  | [], _ => True
+  | o :: os, r =>
+      match o.norm r.2.length with
+      | .error _ => True
+      | .ok op => op.validAt r ∧
+          match applyRaw op r with
+          | .ok r' => ValidHistoryIx os r'
+          | .error _ => True
 
 end matrix
 
